@@ -1118,4 +1118,41 @@ theorem coverage_fails_without_on_inherit_shadow_clearing :
     Edit.answer Edit.gP (Edit.runG Edit.gP (Edit.W.init Edit.gSlots) Edit.gOps) ["T"] "c" [] = some (.ok (.int 5)) := by
   decide
 
+/-! ### a member that starts to hide a model-level reference (`Edit.shadowClears`; /repo 5b95fbf, cdc3def)
+
+The
+two concrete histories below are the regression inputs of the two repairs: the clearing WITH the
+`clear_attr_referrers(global_refs[name])` of `UserSpaceImpl.on_inherit` covers what the edit changes (the
+decidable `Edit.covered`, evaluated by the driver at every step), the clearing WITHOUT it (`Edit.clearing`
+alone: the code before the repairs) does not – the slot `S.r` stops denoting the model-level reference and
+its recorded readers keep their values. -/
+
+/-- `B.r` a cells (`cells := true`) / a reference; THEN `model.r = 1`; `S`; the slot `S.r` is read from elsewhere -/
+def shOps (cells : Bool) : List SM.Op :=
+  [.newSpace [] "B" [] [], if cells then .newCells ["B"] "r" "r" 0 else .setRef ["B"] "r" 5, .setGlobal "r",
+   .newSpace [] "S" [] [], .newSpace [] "T" [] []]
+def shSt (cells : Bool) : SM.St := (shOps cells).foldl (fun st o => (st.apply [] o).getD st) {}
+/-- `S.add_bases(B)`: `r` is derived into `S` -/
+def shOp : SM.Op := .addBases ["S"] [["B"]]
+def shSt' (cells : Bool) : SM.St := ((shSt cells).apply [] shOp).getD (shSt cells)
+def shTabs (cells : Bool) : Edit.Tabs :=
+  (({ rtab := [(["S"], "r")], slots := [(["S"], "r")], gv := [("r", 1)] } : Edit.Tabs).grow (shSt cells)).grow (shSt' cells)
+
+/-- **a CELLS derived into `S` hides the model-level reference read as `S.r`** (cdc3def): before the edit the
+slot denotes the model-level reference, afterwards nothing (the name is a cells); the machine's clearing
+covers the step, the clearing without `shadowClears` does not -/
+theorem derived_cells_hiding_a_global_is_covered_only_with_shadow_clears :
+    Edit.refPay (shTabs true) (shSt true) ["S"] "r" = some 1 ∧ Edit.refPay (shTabs true) (shSt' true) ["S"] "r" = none ∧
+    ((shSt' true).mem .cells ["S"] "r").isSome = true ∧
+    Edit.covered (shTabs true) (shSt true) (shSt' true) (Edit.clearingG [] (shTabs true) (shSt true) (shSt' true) shOp) = true ∧
+    Edit.covered (shTabs true) (shSt true) (shSt' true) (Edit.clearing [] (shTabs true) (shSt true) (shSt' true) shOp) = false := by
+  decide
+
+/-- the same for a derived REFERENCE (5b95fbf): the slot goes from the model-level value to the base's -/
+theorem derived_ref_shadowing_a_global_is_covered_only_with_shadow_clears :
+    Edit.refPay (shTabs false) (shSt false) ["S"] "r" = some 1 ∧ Edit.refPay (shTabs false) (shSt' false) ["S"] "r" = some 5 ∧
+    Edit.covered (shTabs false) (shSt false) (shSt' false) (Edit.clearingG [] (shTabs false) (shSt false) (shSt' false) shOp) = true ∧
+    Edit.covered (shTabs false) (shSt false) (shSt' false) (Edit.clearing [] (shTabs false) (shSt false) (shSt' false) shOp) = false := by
+  decide
+
 end MxModel.C02
